@@ -358,6 +358,36 @@ def case_curve_seq(c):
     return viol
 
 
+def case_curve_edit(c):
+    """Labelling at creation, [read cells / parts], remove one segment or one vertex, read, re-open,
+    read: the part labels must describe the connectivity of the CURRENT cells (a label cache that
+    survives the edit does not)."""
+    Workspace, objects = _lib()
+    ws = Workspace()
+    n = len(c["labels"])
+    curve = objects.Curve.create(ws, vertices=_vertices(n), parts=list(c["labels"]))
+    viol = []
+    if c["read_between"]:
+        viol += _judge_curve(curve, n, c["labels"], "live, before the edit")[0]
+    what, at = c["edit"]
+    try:
+        if what == "remove_cells":
+            if at >= len(_cells_of(curve)) or len(_cells_of(curve)) < 2:
+                return viol
+            curve.remove_cells([at])
+        else:
+            curve.remove_vertices([at])
+    except Exception:  # pylint: disable=broad-except
+        return viol  # a refused edit is not this property's business
+    n2 = int(np.asarray(curve.vertices).shape[0])
+    viol += _judge_curve(curve, n2, None, f"live, after {what}")[0]
+    uid = curve.uid
+    ws2 = _reopen(ws, "r")
+    viol += _judge_curve(ws2.get_entity(uid)[0], n2, None, f"reopen, after {what}")[0]
+    ws2.close()
+    return viol
+
+
 # =========================================================================== sequences (cache model checking)
 def _conv(attr, value):
     if isinstance(value, list):
@@ -525,7 +555,7 @@ def case_seq(c):
 
 # =========================================================================== dispatcher
 HANDLERS = {"block": case_block, "grid2d": case_grid2d, "octree": case_octree, "drape": case_drape, "curve": case_curve,
-            "curve_cells": case_curve_cells, "curve_seq": case_curve_seq}
+            "curve_cells": case_curve_cells, "curve_seq": case_curve_seq, "curve_edit": case_curve_edit}
 
 
 _DONE = [0]
@@ -635,6 +665,13 @@ def curve_cases(quick):
         for a, b in itertools.product(labs, repeat=2):
             for rb in (True, False):
                 yield {"kind": "curve_seq", "first": a, "second": b, "read_between": rb}
+    for n in (3, 4) if quick else (3, 4, 5):
+        for lab in itertools.product((0, 1, 2), repeat=n):
+            for rb in (True, False):
+                for at in range(n):
+                    yield {"kind": "curve_edit", "labels": list(lab), "read_between": rb, "edit": ["remove_vertices", at]}
+                    if at < n - 1:
+                        yield {"kind": "curve_edit", "labels": list(lab), "read_between": rb, "edit": ["remove_cells", at]}
 
 
 SEQ_SCENES = {
@@ -700,6 +737,8 @@ def _complexity(case):
         return (0, case["n"], len(case["cells"]))
     if k == "curve_seq":
         return (1, len(case["first"]), 0)
+    if k == "curve_edit":
+        return (1, len(case["labels"]), 1)
     if k == "block":
         return (0, len(case["u"]) * len(case["v"]) * len(case["z"]), 0 if case["rot"] is None else 1)
     if k == "grid2d":
